@@ -11,6 +11,27 @@ Proof.
   - induction H as [|x t Hx Ht IH]; simpl in *; [exact I|]. destruct H0. split; auto.
 Qed.
 
+(* pipelines without unretryable faults have no panics *)
+Lemma fail_at_none_nopanic fl : fail_at fl = None -> cb_panics fl = false.
+Proof. unfold cb_panics. intros H; rewrite H. apply andb_false_r. Qed.
+
+Lemma okp_no_panics ae :
+  (forall p, okz ae p -> no_panics_z p = true) /\ (forall q, okl ae q -> no_panics_l q = true).
+Proof.
+  apply pipe_ind; simpl; intros; auto;
+    try (destruct H0 as [H1 H2]; rewrite (fail_at_none_nopanic _ H1); simpl; auto; fail).
+  - destruct s; simpl in *; auto; destruct H as [[_ H] _]; exact H.
+  - induction H as [|x t Hx Ht IH]; simpl in *; [reflexivity|]. destruct H0 as [H1 H2].
+    rewrite (Hx H1), (IH H2). reflexivity.
+  - induction H as [|x t Hx Ht IH]; simpl in *; [reflexivity|]. destruct H0 as [H1 H2].
+    rewrite (Hx H1), (IH H2). reflexivity.
+  - destruct H0; auto.
+Qed.
+Lemma clean_no_panics p : clean p -> no_panics p = true.
+Proof.
+  destruct p as [p|q]; simpl; [apply (proj1 (okp_no_panics false))|apply (proj2 (okp_no_panics false))].
+Qed.
+
 Lemma clean_dom p : clean p -> dom p.
 Proof. destruct p as [p|q]; simpl; [apply (proj1 (okp_dom false))|apply (proj2 (okp_dom false))]. Qed.
 
@@ -20,7 +41,8 @@ Theorem iter_stream_agree cfg1 cfg2 p k :
   results (run_iter_cfg cfg1 p (Steps (map CNext (repeat true k))))
   = results (run_stream_cfg cfg2 p (Steps (map CNext (repeat true k)))).
 Proof.
-  intros Hs Hc. rewrite (iter_steps_den cfg1 p (repeat true k) Hs (clean_dom p Hc)).
+  intros Hs Hc.
+  rewrite (iter_steps_den cfg1 p (repeat true k) Hs (clean_dom p Hc) (clean_no_panics p Hc)).
   rewrite repeat_length. symmetry. apply stream_steps_den. exact Hc.
 Qed.
 
@@ -37,11 +59,12 @@ Proof.
 Qed.
 
 Theorem iter_sticky cfg p lives i j :
-  iter_supported p = true -> dom p -> (i <= j)%nat -> (j < length lives)%nat ->
+  iter_supported p = true -> dom p -> no_panics p = true ->
+  (i <= j)%nat -> (j < length lives)%nat ->
   let rs := results (run_iter_cfg cfg p (Steps (map CNext lives))) in
   nth_error rs i = Some REnd -> nth_error rs j = Some REnd.
 Proof.
-  intros Hs Hd Hij Hj rs. unfold rs. rewrite (iter_steps_den cfg p lives Hs Hd).
+  intros Hs Hd Hnp Hij Hj rs. unfold rs. rewrite (iter_steps_den cfg p lives Hs Hd Hnp).
   apply expect_sticky; assumption.
 Qed.
 
